@@ -12,6 +12,8 @@ from .. import estimators as E
 from .. import gens
 from ..harness import KnownFinding, Sub, Violation
 
+QUICK_SCALE = 2  # quick budgets below are multiplied by this (kept at about half a minute on 8 processes)
+
 RULE = ("Hypothesis RuleBasedStateMachine, one estimator per machine (all 18 + must-link/cannot-link decorated variants), "
         "three datasets; rules = public calls fit, fit_predict, predict, predict_proba, score, path, set_params (valid "
         "change), clone, and probe rules that take a clone first, run the operation on the reference dataset twice in a "
